@@ -23,12 +23,10 @@ open Spec
 
 /-! ## 1. Loading (`CookieSession.__init__`) -/
 
-/-- `load_total`: constructing the session never raises, whatever the cookie bytes, unless a payload that VERIFIED
-under the secret unpacks into three fields whose third is not a mapping (which `_set_cookie` never produces). In
-particular a missing cookie, any text the serialiser refuses, any verified value that does not unpack, and any
-non-numeric time field all give a session. -/
-theorem load_total (cfg : Cfg) (now : Q) (w : Option Wire)
-    (h : ∀ r c, w ≠ some (.triple (.num r) (.num c) none)) : (load cfg now w).isSome = true := by
+/-- `load_total`: constructing the session never raises, whatever `serializer.loads` returned: a missing cookie, any text
+the serialiser refuses, any deserialised value that does not unpack, any non-numeric time field, any state that is not a
+mapping — all give a session.  (Unconditional since fix f6dc9a1.) -/
+theorem load_total (cfg : Cfg) (now : Q) (w : Option Wire) : (load cfg now w).isSome = true := by
   rcases cfg with ⟨to, re, soe⟩
   cases w with
   | none => cases to <;> simp [load]
@@ -36,25 +34,18 @@ theorem load_total (cfg : Cfg) (now : Q) (w : Option Wire)
     cases x with
     | notTriple => cases to <;> simp [load]
     | triple r c s =>
-      cases r with
-      | bad => cases to <;> simp [load]
-      | num rq =>
-        cases c with
+      cases s with
+      | none => cases to <;> simp [load]
+      | some d =>
+        cases r with
         | bad => cases to <;> simp [load]
-        | num cq =>
-          cases s with
-          | none => exact absurd rfl (h rq cq)
-          | some d =>
+        | num rq =>
+          cases c with
+          | bad => cases to <;> simp [load]
+          | num cq =>
             cases to with
             | none => simp [load]
             | some t => by_cases ho : olderThan now rq t = true <;> simp [load, ho]
-
-/-- the excluded point of `load_total` is real in the model (and is replayed on the real code by the harness:
-a value `[1, 1, 3]` signed with the real key makes `dict.__init__` raise `TypeError`) — unless it is expired,
-because the timeout test comes first. -/
-theorem load_raises_on_verified_non_mapping :
-    (load ⟨none, none, true⟩ 400 (some (.triple (.num 4) (.num 4) none))).isNone = true ∧
-    (load ⟨some 10, none, true⟩ 400 (some (.triple (.num 4) (.num 4) none))).isSome = true := by decide
 
 /-- no cookie, a cookie the serialiser refuses (`ValueError`), or a verified value that does not unpack into three:
 a NEW, EMPTY session created NOW. -/
@@ -94,42 +85,42 @@ theorem no_timeout_never_expires (cfg : Cfg) (now : Q) (c : ACookie) (hT : cfg.t
 
 /-! ### any deserialised payload value (well-signed but malformed, or read by an unsigned serialiser) -/
 
-/-- `malformed_is_new_empty`, PARTIAL.  For EVERY JSON value `v` the serialiser may hand to `__init__` (whatever signed
-it) that is not well-formed — it does not unpack into three fields, or `float()` refuses one of its stamps — the
-session is NEW and EMPTY, created now, and construction does not raise; no key of the value's state is visible, even when
-the third field is a non-empty mapping and only a stamp is bad.
-MISSING for the full statement ("anything that is not a (number, number, mapping) payload"): values whose stamps convert
-but whose state is not a mapping — see `non_mapping_state_is_not_new_empty`, finding F-C10c. -/
-theorem malformed_is_new_empty_partial (strNum : String → Option Nat) (cfg : Cfg) (now : Q) (v : JV)
-    (hwf : v.wellFormed strNum = false) (hnm : v.nonMappingState strNum = false) :
+/-- `malformed_is_new_empty` (FULL since fix f6dc9a1).  For EVERY JSON value `v` the serialiser may hand to `__init__`
+(whatever signed it) that is not a well-formed payload — it does not unpack into three fields, or `float()` refuses one of
+its stamps, or its state is not a mapping — the session is NEW and EMPTY, created now, and construction does not raise; no
+key of the value's state is visible, even when the third field is a non-empty mapping and only a stamp is bad. -/
+theorem malformed_is_new_empty (strNum : String → Option Nat) (cfg : Cfg) (now : Q) (v : JV)
+    (hwf : v.wellFormed strNum = false) :
     ∃ s, load cfg now (some (v.toWire strNum)) = some s ∧ s.new = true ∧ s.data = [] ∧ s.created = now := by
   rcases cfg with ⟨to, re, soe⟩
-  simp only [JV.toWire, JV.wellFormed, JV.nonMappingState] at *
+  simp only [JV.toWire, JV.wellFormed] at *
   cases hu : v.unpack3 with
   | none => cases to <;> simp [load]
   | some t =>
     rcases t with ⟨a, b, c⟩
-    rw [hu] at hwf hnm
-    cases ha : a.toFld strNum with
-    | bad => cases to <;> simp [load, ha]
-    | num rq =>
-      cases hb : b.toFld strNum with
-      | bad =>
-        cases to with
-        | none => simp [load, ha, hb]
-        | some t => by_cases ho : olderThan now rq t = true <;> simp [load, ha, hb, ho]
-      | num cq =>
-        cases c <;> simp_all
+    rw [hu] at hwf
+    cases hc : c.toState with
+    | none => cases to <;> simp [load, hc]
+    | some d =>
+      have hco : c = .obj d := by cases c <;> simp_all [JV.toState]
+      subst hco
+      cases ha : a.toFld strNum with
+      | bad => cases to <;> simp [load, ha, JV.toState]
+      | num rq =>
+        cases hb : b.toFld strNum with
+        | bad =>
+          cases to with
+          | none => simp [load, ha, hb, JV.toState]
+          | some t => by_cases ho : olderThan now rq t = true <;> simp [load, ha, hb, ho, JV.toState]
+        | num cq => simp_all
 
-/-- the negation at concrete witnesses (replayed on the real code with values signed by the real serialiser): stamps that
-convert and a state that is not a mapping — `[1, 1, 3]` makes `dict.__init__` raise, `[1, 1, [["k", 1]]]` is loaded as
-`{"k": 1}` with `new = False`, `[1, 1, ""]` as an empty session that is not new. -/
-theorem non_mapping_state_is_not_new_empty :
-    (load ⟨none, none, true⟩ 400 (some ((JV.arr [.int 1, .int 1, .int 3]).toWire (fun _ => none)))).isNone = true ∧
-    (load ⟨none, none, true⟩ 400 (some ((JV.arr [.int 1, .int 1, .arr [.arr [.str "k", .int 1]]]).toWire (fun _ => none)))).map
-        (fun s => (s.data.map (·.1), s.new)) = some (["k"], false) ∧
-    (load ⟨none, none, true⟩ 400 (some ((JV.arr [.int 1, .int 1, .str ""]).toWire (fun _ => none)))).map
-        (fun s => (s.data.length, s.new)) = some (0, false) := by decide
+/-- the class of the repaired defect F-C10c as a regression fact: stamps that convert and a state that is not a mapping
+(`[1, 1, 3]`, a list of pairs, the empty string) now give a new empty session created now. -/
+theorem non_mapping_state_is_new_empty :
+    [JV.arr [.int 1, .int 1, .int 3], JV.arr [.int 1, .int 1, .arr [.arr [.str "k", .int 1]]], JV.arr [.int 1, .int 1, .str ""],
+     JV.arr [.int 1, .int 1, .null]].all
+      (fun v => (load ⟨none, none, true⟩ 400 (some (v.toWire (fun _ => none)))).map
+        (fun s => (s.data.length, s.new, s.created)) == some (0, true, 400)) = true := by decide
 
 /-- a well-formed value is loaded exactly: its mapping (unless older than the timeout), its creation time, not new -/
 theorem wellformed_loads_exactly (strNum : String → Option Nat) (cfg : Cfg) (now : Q) (v : JV)
@@ -395,7 +386,7 @@ theorem thresholds_as_modelled :
 
 /-- what `__init__` makes of every value of the payload-shape cube on the real code (all `[stamp, stamp, state]` triples over
 8 stamp kinds × 8 state kinds, the convertible ones again under an expired timeout, the other arities and kinds: 678 rows)
-is what the model's `load ∘ toWire` makes of it: new/old, creation time, visible keys, or raising. -/
+is what the model's `load ∘ toWire` makes of it: new/old, creation time, visible keys (no row raises any more). -/
 theorem payload_shapes_as_modelled :
     Gen.shapeProbe.length = 678 ∧ Gen.shapeProbe.all (fun p => decide (modelShape p.1 p.2.1 = p.2.2)) = true := by
   decide +kernel
